@@ -35,6 +35,7 @@ KIND = [
     (re.compile(r"^(norb|norb_batch)$"), "norb"),
     (re.compile(r"^(nocc|nocc_batch|Nocc)$"), "nocc"),
     (re.compile(r"^(species)$"), "species"),
+    (re.compile(r"^(active_states?|_active_states)$"), "active_state"),
 ]
 # uniform(species) implies uniformity of everything that is a function of the species row
 IMPLIED_BY_SPECIES = {"nHeavy", "nHydro", "nSuperHeavy", "norb", "species"}
@@ -236,7 +237,8 @@ def check_spin_flatten(ctx, rid, floor=8):
 
 
 def check_rep_rows(ctx, rid, floor=20, only_files=None):
-    """representative-row rule (shared with C03/C04: the SCF pipeline packs, diagonalises and unpacks with these sizes)"""
+    """representative-row rule (shared with C03/C04: the SCF pipeline packs, diagonalises and unpacks with these sizes; with C08/C17: every
+    trajectory's force is the gradient of its own active state)"""
     repo = ctx.repo
     mods = list(repo.modules("seqm"))
     fn_index = {}     # simple name -> [(mod, qual, func)]
